@@ -1,4 +1,5 @@
 import OrdModel.Proofs.IndexInsnumDedup
+import OrdModel.Proofs.IndexLiftInsTabs
 /-
 C07 — parent/child provenance cannot be forged.
 Model: `linkParents` (the `for parent in parents` loop of `update_inscription_location`) and the
@@ -10,8 +11,14 @@ than the child's (`c07_parent_lt`, from the C05 invariant: the child's own entry
 only after the loop); the children table gains exactly the pairs (parent, child) for the recorded
 parents (`c07_children_iff_partial`); the `retain` filter (named `dedupParents`, equal to the model's
 local definition by `rfl`: `c07_retain_is_model`) leaves a duplicate-free list of purported parents
-that are ids of the transaction's floating list (`c07_retain_filter`).  NOT proved (see
-notes/C07.md): the latest-child tables and the lift to reachable states.
+that are ids of the transaction's floating list (`c07_retain_filter`).  Lifted to every reachable
+state of the full index model, with NO hypothesis on the chain (`Proofs/IndexLiftInsTabs.lean`:
+any predicate on the inscription tables preserved by `update_inscription_location` holds after
+every chain): the latest-child tables (`c07_latest_child_reachable`: `coll2latest p` = max child
+of a visible parent, none for a hidden one; the two tables inverse) and the children table ⇔ the
+entries' parent lists, parents older than children (`c07_children_reachable`).  NOT proved: that
+every recorded parent was spent or revealed by the child's reveal transaction, as a statement
+about reachable states (it is `c07_retain_filter` at the filter, oracle `parents` on runs).
 -/
 namespace Ord.Index.C07
 open Ord.Index Ord.Index.Insnum Ord.Outcome
@@ -81,11 +88,64 @@ theorem c07_retain_filter (potential ps : List InscriptionId) :
     (dedupParents potential ps).Nodup ∧ (∀ x ∈ dedupParents potential ps, x ∈ ps ∧ x ∈ potential) :=
   dedupParents_spec potential ps
 
+/-! ## Every reachable state (no hypothesis on the chain) -/
+
+/-- **Latest-child tables on reachable states**: for a visible parent with at least one child,
+`coll2latest` holds the largest child sequence number; a hidden parent has no row; every
+`coll2latest` row has its mirror row in `latest2coll` and is a `children` row; every
+`latest2coll` row is the mirror of the `coll2latest` row; `coll2latest` has no duplicate key. -/
+theorem c07_latest_child_reachable (cfg : Cfg) (chain : List Block) (st : State) (evs : List Event)
+    (h : run cfg chain = .ok (st, evs)) :
+    (∀ (p : Nat) (e : InsEntry), st.entries[p]? = some e → e.hidden = false → (∃ c, (p, c) ∈ st.children) →
+      AL.get st.coll2latest p = some (maxOf ((st.children.filter (·.1 == p)).map (·.2)))) ∧
+    (∀ (p : Nat) (e : InsEntry), st.entries[p]? = some e → e.hidden = true → AL.get st.coll2latest p = none) ∧
+    (∀ p l, AL.get st.coll2latest p = some l → (l, p) ∈ st.latest2coll ∧ (p, l) ∈ st.children) ∧
+    (∀ l p, (l, p) ∈ st.latest2coll → AL.get st.coll2latest p = some l) ∧
+    (AL.keys st.coll2latest).Nodup := by
+  have i : InsLift.LInvT (tabs st) := InsLift.run_tabsP InsLift.linv_stable InsLift.linv_empty cfg chain st evs h
+  exact ⟨i.latest, i.hiddenNone, i.fwd, i.bwd, i.keys⟩
+
+/-- **Children ⇔ parents on reachable states**: `(p, c)` is a row of the children table iff `p` is
+in the parent list of entry `c`; every parent has an entry and is older than the child. -/
+theorem c07_children_reachable (cfg : Cfg) (chain : List Block) (st : State) (evs : List Event)
+    (h : run cfg chain = .ok (st, evs)) :
+    (∀ p c, (p, c) ∈ st.children ↔ ∃ e : InsEntry, st.entries[c]? = some e ∧ p ∈ e.parents) ∧
+    (∀ p c, (p, c) ∈ st.children → p < c ∧ c < st.entries.length ∧ ∃ e : InsEntry, st.entries[p]? = some e) := by
+  have i : InsLift.LInvT (tabs st) := InsLift.run_tabsP InsLift.linv_stable InsLift.linv_empty cfg chain st evs h
+  have j : InsLift.CInvT (tabs st) := InsLift.run_tabsP InsLift.cinv_stable InsLift.cinv_empty cfg chain st evs h
+  refine ⟨fun p c => ⟨j.ofChild p c, ?_⟩, fun p c hm => ⟨i.lt p c hm, i.bound p c hm, i.parentEntry p c hm⟩⟩
+  rintro ⟨e, he, hp⟩
+  exact j.ofParent c e he p hp
+
 example : dedupParents [⟨7, 0⟩, ⟨8, 0⟩] [⟨7, 0⟩, ⟨9, 0⟩, ⟨7, 0⟩, ⟨8, 0⟩] = [⟨7, 0⟩, ⟨8, 0⟩] := by decide
 
 /-! non-vacuity: a parent known to the table is linked, an unknown one is not -/
 example : ∃ st', linkParents 1 [⟨7, 0⟩, ⟨9, 0⟩]
     { entries := [⟨0, 0, 1, false, ⟨7, 0⟩, 0, [], none, 0, 0⟩], id2seq := [(⟨7, 0⟩, 0)] } [] [] = .ok (st', [⟨7, 0⟩], [0]) :=
   ⟨_, rfl⟩
+
+/-! non-vacuity of the reachable-state theorems: a parent revealed in block 1 (output `3:0`) is
+spent by the reveal of a child naming it in block 2; the chain is indexed successfully and the
+three parent/child tables get their rows -/
+
+def pcCfg : Cfg :=
+  { indexSats := false, indexAddresses := false, indexTransactions := false, indexInscriptions := true, indexRunes := false, firstInscriptionHeight := 0, jubileeHeight := 0, firstRuneHeight := 0 }
+def pcCbIn : TxIn := { prev := OutPoint.null, taproot := false, confHeight := none, pushes := [] }
+def pcOut : TxOut := { value := 5000000000, opReturn := false, script := [] }
+def pcCb (txid : Txid) : Tx := { txid := txid, inputs := [pcCbIn], outputs := [pcOut], envelopes := [], artifact := none, size := 0 }
+def pcEnv (parents : List InscriptionId) : Envelope :=
+  { input := 0, offset := 0, unrecognizedEven := false, duplicateField := false, incompleteField := false, pushnum := false, stutter := false, hidden := false, gallery := false, pointerField := false, pointer := none, parents := parents }
+def pcReveal (txid : Txid) (prev : OutPoint) (parents : List InscriptionId) : Tx :=
+  { txid := txid, inputs := [{ prev := prev, taproot := true, confHeight := some 0, pushes := [] }], outputs := [pcOut], envelopes := [pcEnv parents], artifact := none, size := 0 }
+def pcB0 : Block := { height := 0, time := 0, hash := 100, minimumRune := 0, txs := [pcCb 1] }
+def pcB1 : Block := { height := 1, time := 0, hash := 101, minimumRune := 0, txs := [pcCb 2, pcReveal 3 ⟨1, 0⟩ []] }
+def pcB2 : Block := { height := 2, time := 0, hash := 102, minimumRune := 0, txs := [pcCb 4, pcReveal 5 ⟨3, 0⟩ [⟨3, 0⟩, ⟨9, 9⟩]] }
+
+def pcTables (r : Outcome (State × List Event)) : Option (List (Nat × Nat) × List (Nat × Nat) × List (Nat × Nat)) :=
+  match r with
+  | .ok (st, _) => some (st.children, st.coll2latest, st.latest2coll)
+  | _ => none
+
+example : pcTables (run pcCfg [pcB0, pcB1, pcB2]) = some ([(0, 1)], [(0, 1)], [(1, 0)]) := by decide
 
 end Ord.Index.C07
